@@ -26,6 +26,11 @@ Definition parse_hms_c (s : str) : res (option (Z * Z * Z)) :=
         end)
   else Ok None.
 (* parts := Split(i, sep); if len(parts) >= 2 { parts[len(parts)-1]; parts[:len(parts)-1] } *)
+(* [index parts (length parts - 1) 803] panics on the empty list ([index [] 0]), so 803 is sound as written;
+   parts[:len(parts)-1] is [slice_to_pred] (Kit/Chk.v), Panic 815 on the empty list as Go's [:-1].  strings.Split never
+   returns an empty slice for a non-empty separator, so what the guard len(parts) >= 2 protects against is not a panic but
+   the one-part case (no separator): the guard-dropped variant of Proofs/DurChk.v makes that visible with a split
+   result that can be empty. *)
 Definition parse_duration_c (s : str) (sep : byte) (k : nat) : res (option Z) :=
   let parts := split_byte sep s in
   if Nat.leb 2 (length parts) then
@@ -36,7 +41,7 @@ Definition parse_duration_c (s : str) (sep : byte) (k : nat) : res (option Z) :=
          | None => Ok None
          | Some ms =>
            let ms' := ms * pow10_int (Z.of_nat k - Z.of_nat (length f)) in
-           do front <- slice_to parts (length parts - 1) 815;
+           do front <- slice_to_pred parts 815;
            do hms <- parse_hms_c (join [sep] front);
            Ok (match hms with
                | Some (h, mn, sec) => Some (ms' * ms_ns + sec * second_ns + mn * minute_ns + h * hour_ns)
